@@ -910,13 +910,17 @@ fn gen_payload(rng: &mut Rng) -> String {
         }
     };
     let a = bound(rng);
-    let b = match rng.below(5) {
+    let b = match rng.below(10) {
         0 => a,
-        1 => a.saturating_add(1),
-        2 => a.saturating_sub(1),
-        _ => bound(rng),
+        1 | 2 => a.saturating_add(1),
+        3 => a.saturating_sub(1),
+        4 | 5 => bound(rng),
+        _ => {
+            let x = bound(rng);
+            if x > a { x } else { a.saturating_add(rng.range(1, 1000)) }
+        }
     };
-    let n = rng.below(4) as usize;
+    let n = *rng.pick(&[0usize, 1, 1, 2, 3, 3, 5]);
     let mut list: Vec<u8> = (n as i32).to_be_bytes().to_vec();
     let neg_shard = rng.chance(1, 8);
     for k in 0..n {
